@@ -1,8 +1,8 @@
 (** C03 - no silent conflation (statements only; proofs in Proofs/). *)
-From Coq Require Import List NArith String Bool.
+From Coq Require Import List NArith String Bool Sorted.
 From V Require Import Base.Strings Base.Result Model.Registry Model.Settings Model.Subst
-  Model.TypePath Model.Derives Model.Generate Model.Equal Model.Shape Proofs.GenProofs
-  Proofs.FidelityBase Proofs.Fidelity Proofs.FidelityGen Proofs.KeepFirst.
+  Model.TypePath Model.Derives Model.Generate Model.Equal Model.Shape Model.DedupSpec Proofs.GenProofs
+  Proofs.FidelityBase Proofs.Fidelity Proofs.FidelityGen Proofs.KeepFirst Proofs.DedupGroups.
 Import ListNotations.
 
 (** structure of the loop, any registry, any comparison function: when nothing else fails
@@ -69,3 +69,38 @@ Theorem C03_member_represented :
         forall n, item_shape m s n ir0 params = shape_reg r s (S n) id.
 Proof. exact member_represented. Qed.
 Print Assumptions C03_member_represented.
+
+(** the groups map [m] of [ensure_unique_type_paths] (utils.rs:43-70), for ANY registry on which
+    the grouping loop succeeds.  [entry_at r i p]: the entry at position [i] has path [p];
+    [all_members m]: every index listed anywhere in [m]; [group_first g = g[0]].
+    - the path keys are distinct, every path has a group and no group is empty;
+    - (i) every position with a namespaced path is listed exactly once in the whole map
+      ([NoDup] of the flattening), under its own path; positions without namespace nowhere;
+    - (ii) every member of a group other than the first is [Ok true] against the first;
+    - (iii) every member of a group (in particular the member that started it) is [Ok false]
+      against the first member of every EARLIER group of its path;
+    - (iv) members are in increasing index order, the groups of a path in order of their first
+      members, and the paths in order of first appearance. *)
+Theorem C03_dedup_groups :
+  forall r m, build_groups r = Ok m ->
+    NoDup (map fst m) /\
+    (forall p gs, In (p, gs) m -> gs <> [] /\ Forall (fun g => g <> []) gs) /\
+    NoDup (all_members m) /\
+    (forall i, In i (all_members m) <-> exists p, entry_at r i p /\ namespace p <> []) /\
+    (forall p gs g i, In (p, gs) m -> In g gs -> In i g -> entry_at r i p) /\
+    (forall p gs g i, In (p, gs) m -> In g gs -> In i (tl g) ->
+                      types_equal_res r i (group_first g) = Ok true) /\
+    (forall p gs gs1 g gs2 g0 i, In (p, gs) m -> gs = gs1 ++ g :: gs2 -> In g0 gs1 -> In i g ->
+                                 types_equal_res r i (group_first g0) = Ok false) /\
+    (forall p gs, In (p, gs) m ->
+                  Forall (StronglySorted N.lt) gs /\ StronglySorted N.lt (map group_first gs)) /\
+    StronglySorted N.lt (map entry_first m).
+Proof. exact dedup_groups. Qed.
+Print Assumptions C03_dedup_groups.
+
+(** existence half of (i), directly: a namespaced position is a member of a group of its path *)
+Theorem C03_dedup_member :
+  forall r m i p, build_groups r = Ok m -> entry_at r i p -> namespace p <> [] ->
+    exists gs g, In (p, gs) m /\ In g gs /\ In i g.
+Proof. exact dedup_member. Qed.
+Print Assumptions C03_dedup_member.
